@@ -322,7 +322,9 @@ func init() {
 					func(x model.Expr) model.Expr { return model.Binary{Op: "*", L: model.Unary{Op: "-", X: x}, R: x} },
 					func(x model.Expr) model.Expr { return model.Binary{Op: "==", L: model.Unary{Op: "-", X: x}, R: x} },
 					func(x model.Expr) model.Expr { return model.Ternary{C: x, A: model.Unary{Op: "-", X: x}, B: x} },
-					func(x model.Expr) model.Expr { return model.Unary{Op: "-", X: model.Paren{X: model.Unary{Op: "-", X: x}}} },
+					func(x model.Expr) model.Expr {
+						return model.Unary{Op: "-", X: model.Paren{X: model.Unary{Op: "-", X: x}}}
+					},
 				}
 				secs = append(secs, core.Section{Name: "operators-leave-operands-alone", Exhaustive: true, N: len(vals) * len(ops) * 4,
 					Run: func(c *core.Ctx, i int) {
